@@ -9,9 +9,11 @@ import itertools
 import genb
 from vlib import rnd_u64, U64, xhex
 from props.codec_common import CODEC_TRUSTED
+from props import api_common
 
 THEOREMS = ["C11_invariant", "C11_start", "C11_builder_build", "C11_std_bundle", "C11_step", "C11_inv_reading",
-            "C11_roundtrip_unknown_crc", "C11_wf_conservative"]
+            "C11_roundtrip_unknown_crc", "C11_wf_conservative", "C11_bundle_builder", "C11_from_builder", "C11_builder_payload_last",
+            "C11_constructors_admissible", "C11_constructors_valid", "C11_primary_builder", "C11_std_bundle_api", "C11_block_ops"]
 RELEASE = True
 OFFSET = 946684800000
 RULE = ("OPS <clock> <builder bundle> ; [SORT ;] op ...: start bundles = payload-only, new_std_payload_bundle shape (hop count 2 + payload 1) and "
@@ -23,7 +25,14 @@ RULE = ("OPS <clock> <builder bundle> ; [SORT ;] op ...: start bundles = payload
         "limit) plus random sequences of length <= 8; the oracle checks Inv (unique non-zero strictly descending numbers, single payload block "
         "numbered 1 and last, singleton types at most once, valid by an independent Python rule list, well-formed) on the implementation's bundle "
         "after every step, the payload read back == the payload most recently set, every block carries the CRC type last set, FINAL VALID and RT T; debug and release builds; "
-        "non-trivial = distinct in-domain line")
+        "non-trivial = distinct in-domain line.  K-api (`API ...`, tools/props/api_common.py): every public constructor (new_hop_count_block, "
+        "new_bundle_age_block, new_previous_node_block, new_payload_block, new_canonical_block, CanonicalBlock::new/default, CanonicalBlockBuilder with "
+        "each setter called or not), the block accessors and mutators (payload_data, hop_count_get/_increase/_exceeded, bundle_age_get/_update, "
+        "previous_node_get/_update; also on blocks whose data does not belong to their type and on alias types 262/263/266), PrimaryBlockBuilder with "
+        "each of its nine setters called or not, new_primary_block on valid and invalid endpoint texts, BundleBuilder with primary/canonicals/payload "
+        "called or not (blocks in any order, payload blocks inside the list, numbers 0/1), Bundle::default, new_std_payload_bundle under the clock hook, "
+        "Bundle::previous_node; model = Model/Api.v, oracle = what the function documents; OPSA = the OPS lines with a UPD step answered by the model "
+        "that writes update_extensions with the block-level operations")
 TRUSTED_BASE = CODEC_TRUSTED + ["tools/props/c11.py: Python transcription of Inv / the validation rules / admissibility (oracle)"]
 ASSUMPTIONS = ["start state = builder bundle accepted by validate and inside the C01 domain (wf_bundle: block data variant matches block type; "
                "validate alone accepts CanonicalData::Unknown under a known type, which does not round-trip)",
@@ -238,7 +247,7 @@ def parse_line(line):
     toks = line.split()
     if toks and toks[0] in ("D", "R"):
         toks = toks[1:]
-    if not toks or toks[0] != "OPS":
+    if not toks or toks[0] not in ("OPS", "OPSA"):
         return None
     t = genb.T(toks)
     t.next()
@@ -437,12 +446,18 @@ def cases(rng, tier):
     for _ in range(nrand):
         n = rng.randrange(1, 9)
         out.append(seq_line(rng, [rng.choice(KINDS) for _ in range(n)]))
+    # the same lines with update_extensions answered by the second model (block-level operations, Model/Api.v)
+    upd = [l for l in out if " ; UPD " in l]
+    out += ["OPSA" + l[3:] for l in upd[:1500 if tier == "quick" else 100000]]
+    out += api_common.lines(rng, 6000 if tier == "quick" else 300000)
     return out
 
 
 # ------------------------------------------------------------------ oracle -----------------------------------------
 
 def oracle(line, out, mode):
+    if api_common.is_api(line):
+        return api_common.oracle(line, out)
     try:
         parsed = parse_line(line)
     except (AssertionError, IndexError, ValueError):
@@ -507,6 +522,8 @@ def _sig(ops):
 
 
 def classify(line, out):
+    if api_common.is_api(line):
+        return "API " + " ".join(line.split()[1:3][:1 if line.split()[1] != "BLK" else 2]) + " " + (out or "").split(" ")[0]
     try:
         clock, b0, ops = parse_line(line)
     except Exception:
@@ -517,6 +534,8 @@ def classify(line, out):
 
 
 def nontrivial(line, out):
+    if api_common.is_api(line):
+        return bool(out) and out.startswith("OK ")
     try:
         clock, b0, ops = parse_line(line)
     except Exception:
